@@ -23,3 +23,25 @@ impl CertificatesBuilder {
     #[verifier::external_body] pub fn add(&mut self, cert: &CertificateO) -> (r: Result<(), JsError>)
         ensures r is Ok ==> final(self).adds() == old(self).adds().push(*cert), r is Err ==> *final(self) == *old(self) { unimplemented!() }
 }
+
+// ===== mint-and-output helpers (C07: "minted-asset outputs" are admitted like every other output) ==============================================================
+opaque_types!(NativeScriptO, AssetNameO, PolicyIdO, MintO, MintAssetsO, TransactionOutputAmountBuilder);
+#[verifier::external_body] pub struct IntO { _p: core::marker::PhantomData<u8> }
+impl IntO { pub uninterp spec fn positive(&self) -> bool; #[verifier::external_body] pub fn is_positive(&self) -> (r: bool) ensures r == self.positive() { unimplemented!() } }
+impl NativeScriptO { #[verifier::external_body] pub fn hash(&self) -> (r: PolicyIdO) { unimplemented!() } }
+impl MintAssetsO { #[verifier::external_body] pub fn new_from_entry(key: &AssetNameO, value: &IntO) -> (r: Result<MintAssetsO, JsError>) { unimplemented!() } }
+impl MintO {
+    #[verifier::external_body] pub fn new_from_entry(key: &PolicyIdO, value: &MintAssetsO) -> (r: MintO) { unimplemented!() }
+    #[verifier::external_body] pub fn as_positive_multiasset(&self) -> (r: MultiAsset) { unimplemented!() }
+}
+impl TransactionOutputAmountBuilder {
+    // the output builder (its min-coin helper is under contract in unit min_ada; here: opaque - whatever it builds goes through add_output)
+    #[verifier::external_body] pub fn with_coin_and_asset(&self, coin: &Coin, multiasset: &MultiAsset) -> (r: TransactionOutputAmountBuilder) { unimplemented!() }
+    #[verifier::external_body] pub fn with_asset_and_min_required_coin_by_utxo_cost(&self, multiasset: &MultiAsset, data_cost: &DataCost) -> (r: Result<TransactionOutputAmountBuilder, JsError>) { unimplemented!() }
+    #[verifier::external_body] pub fn build(&self) -> (r: Result<TransactionOutput, JsError>) { unimplemented!() }
+}
+impl TransactionBuilder {
+    /// registers the mint with the mint builder (MintBuilder::add_asset -> update_mint_value: unit mint_update); here: only the mint field may change
+    #[verifier::external_body] pub fn add_mint_asset(&mut self, policy_script: &NativeScriptO, asset_name: &AssetNameO, amount: &IntO) -> (r: Result<(), JsError>)
+        ensures *final(self) == (TransactionBuilder { mint: final(self).mint, ..*old(self) }) { unimplemented!() }
+}
